@@ -3,6 +3,7 @@ package props
 import (
 	"fmt"
 	"strings"
+	"time"
 
 	"github.com/gdamore/tcell/v2"
 
@@ -200,10 +201,25 @@ func C12(r *core.Run) {
 		if !full || r.Quick() {
 			step = 13
 		}
+		// coordinate bytes: 32.. as xterm encodes cells, plus bytes below 32 (cell <= 0; xterm
+		// sends NUL for a coordinate it cannot encode), which clip to the first column/row
+		var coordBytes []int
+		for _, b := range []int{0, 1, 0x1b, 0x1f} {
+			coordBytes = append(coordBytes, b)
+		}
+		if !r.Quick() && full {
+			coordBytes = coordBytes[:0]
+			for b := 0; b < 32; b++ {
+				coordBytes = append(coordBytes, b)
+			}
+		}
+		for b := 32; b < 256; b += step {
+			coordBytes = append(coordBytes, b)
+		}
 		for cb := 32; cb < 256; cb++ {
 			ref := refMouse(cb - 32)
-			for cxb := 32; cxb < 256; cxb += step {
-				for cyb := 32; cyb < 256; cyb += step {
+			for _, cxb := range coordBytes {
+				for _, cyb := range coordBytes {
 					s := []byte{0x1b, '[', 'M', byte(cb), byte(cxb), byte(cyb)}
 					ev, ok := one(s)
 					n++
@@ -386,5 +402,87 @@ func c12eightbit(r *core.Run) {
 			}
 		}
 		r.CaseN(n, n)
+	}
+	c12live(r)
+}
+
+// c12live: the reports of a drag on a live screen with the application calling the
+// screen between them (mouse modes reprogrammed from the press handler, a
+// Suspend/Resume cycle with the button down). The motion report itself says which
+// button is held (code 32 + button): whatever the application did in between, it
+// must decode to that button.
+func c12live(r *core.Run) {
+	ti := Pristine("xterm-256color")
+	calls := []struct {
+		name string
+		f    func(s tcell.Screen)
+	}{
+		{"nothing", func(s tcell.Screen) {}},
+		{"EnableMouse()", func(s tcell.Screen) { s.EnableMouse() }},
+		{"EnableMouse(buttons|drag)", func(s tcell.Screen) { s.EnableMouse(tcell.MouseButtonEvents | tcell.MouseDragEvents) }},
+		{"EnableMouse(motion)", func(s tcell.Screen) { s.EnableMouse(tcell.MouseMotionEvents) }},
+		{"DisableMouse+EnableMouse", func(s tcell.Screen) { s.DisableMouse(); s.EnableMouse() }},
+		{"Suspend+Resume", func(s tcell.Screen) { _ = s.Suspend(); _ = s.Resume() }},
+		{"EnablePaste", func(s tcell.Screen) { s.EnablePaste() }},
+		{"SetSize-same+Sync", func(s tcell.Screen) { s.Sync() }},
+	}
+	rounds := r.Pick(3, 40)
+	for k := 0; k < rounds*len(calls); k++ {
+		c := calls[k%len(calls)]
+		btnCode := []int{0, 1, 2}[(k/len(calls))%3]
+		wantBtn := []tcell.ButtonMask{tcell.Button1, tcell.Button3, tcell.Button2}[btnCode]
+		ls, err := startScreen(ti, 80, 24, nil)
+		if err != nil {
+			r.Inconclusive(err.Error())
+			return
+		}
+		ls.s.EnableMouse()
+		next := func() (NEv, bool) {
+			deadline := time.After(20 * time.Second)
+			got := make(chan tcell.Event, 1)
+			for {
+				go func() { got <- ls.s.PollEvent() }()
+				select {
+				case ev := <-got:
+					if ev == nil {
+						return NEv{}, false
+					}
+					if _, ok := ev.(*tcell.EventMouse); ok {
+						return normEv(ev), true
+					}
+				case <-deadline:
+					return NEv{}, false
+				}
+			}
+		}
+		ok := true
+		step := func(rep string, want tcell.ButtonMask, what string) {
+			if !ok {
+				return
+			}
+			ls.tty.Feed([]byte(rep))
+			ev, got := next()
+			if !got {
+				ls.judgeSentinel(r, false, fmt.Sprintf("live drag, report %q after %s", rep, c.name))
+				ok = false
+				return
+			}
+			if ev.Btn != want {
+				r.Violate("live:"+what, fmt.Sprintf("xterm-256color: press (code %d), then %s, then reports ...%q: %s decodes to buttons %#x, expected %#x", btnCode, c.name, rep, what, int(ev.Btn), int(want)), nil)
+				ok = false
+			}
+		}
+		step(fmt.Sprintf("\x1b[<%d;5;5M", btnCode), wantBtn, "press")
+		if ok {
+			ls.tty.BeginApp()
+			c.f(ls.s)
+			ls.tty.EndApp()
+		}
+		step(fmt.Sprintf("\x1b[<%d;6;5M", 32+btnCode), wantBtn, "motion-while-held-after-call")
+		step(fmt.Sprintf("\x1b[<%d;7;6M", 32+btnCode), wantBtn, "motion-while-held-after-call")
+		step(fmt.Sprintf("\x1b[<%d;7;6m", btnCode), tcell.ButtonNone, "release")
+		ls.fini()
+		r.Case(fmt.Sprintf("live|%s|%d|%d", c.name, btnCode, k))
+		r.Count("live_drag_histories", 1)
 	}
 }
